@@ -308,6 +308,10 @@ def option_unwrap_discharged(ctx, b, site):
     return site.bb not in reachable
 
 
+def owns_bufwriter(prog, ty):
+    return bool(prog.find_in_type(ty, lambda t: t.get("k") == "adt" and effects.norm(t["def"]) == "std::io::BufWriter"))
+
+
 def failed_writer_typestate(ctx, r, must):
     prog = ctx.prog
     A = ctx.anchors
@@ -327,16 +331,23 @@ def failed_writer_typestate(ctx, r, must):
             names = sem_set(e for e in ctx.may.site_events(site) if ctx._concrete(e))
             if not (names & {"WAL_WRITE", "WAL_FLUSH", "WAL_SYNC"}):
                 continue
-            root = ctx.world.root_place(b, site.term["args"][0])
-            if root is None:
+            # the call operates on a buffered writer (its receiver's type owns a BufWriter) that lives in a field of
+            # the manager: only that field has state that survives a failure
+            pl0 = place_of(site.term["args"][0])
+            if pl0 is None:
                 continue
-            node = ctx.world.vfg.node_of_place(b, root)
-            if node[0] != "F" or node[1] != walmgr:
+            rty = ctx.world._place_ty(b, pl0)
+            rd = prog.adt_of(rty)[0]
+            if rd == walmgr or rd not in prog.adts or not owns_bufwriter(prog, rty):
                 continue
-            fty = ctx.world._field_ty(node)
-            if fty is None or not prog.find_in_type(fty, lambda t: t.get("k") == "adt" and
-                                                    effects.norm(t["def"]) == "std::io::BufWriter"):
-                continue      # only the field that owns the buffered writer has state that survives a failure
+            if prog.types[rty].get("k") != "ref":
+                continue      # consumed by value (seal/close): cannot be used again whatever the outcome
+            wfields = [("F", walmgr, f["name"]) for f in prog.adts[walmgr]["variants"][0]["fields"]
+                       if any(prog.types[i].get("def") == rd for i in prog.find_in_type(
+                           f["ty"], lambda t: t.get("k") == "adt"))]
+            if len(wfields) != 1:
+                continue
+            node = wfields[0]
             n += 1
             errs = rf.err_edges_of(site.bb)
             if not errs:
